@@ -40,10 +40,32 @@ def inline_policy(fn, ev):
     if fn.crate != "postcard_dyn":
         return False
     if fn.canon in (SER_FN, DE_FN):
-        return False
+        # the walk itself stays a call, except on a schema node *built on the spot* (`&OwnedDataModelType::Tuple(vec.clone())`): then the
+        # arm it selects is known and is analysed in place, exactly as if its body had been written out or moved to a helper
+        return _built_schema_ev(ev)
     if fn.name == "try_take_varint_usize":
         return True
     return not vint.is_helper(fn) and fn.name not in ("take_one", "take_n")
+
+
+def _built_schema(a):
+    if a is None:
+        return False
+    while isinstance(a, tuple) and a and a[0] in ("ref", "pref"):
+        if a[0] == "pref":
+            a = a[1]
+        elif a[1][0] == "P":
+            a = a[1][1]
+        else:
+            return False
+    return isinstance(a, tuple) and len(a) > 3 and a[0] == "agg" and a[1] == "adt" and str(a[2]).endswith("OwnedDataModelType")
+
+
+def _built_schema_ev(ev):
+    if not ev.get("args"):
+        return False
+    snap = (ev.get("snap") or [None])[0]
+    return _built_schema(ev["args"][0]) or _built_schema(snap)
 
 
 class Arms:
@@ -62,6 +84,7 @@ class Arms:
         # the float byte conversions stay visible as calls here: they are tokens of the arm abstraction
         keep = {k: (lambda *a: NotImplemented) for k in sym.MODELS if k.startswith(("core::f32::", "core::f64::")) and "_bytes" in k}
         eng = sym.Engine(F, inline=inline_policy, max_visits=3, max_paths=20000, max_steps=40000, models=keep)
+        eng.unfold = lambda fn, ev, st: fn.canon in (SER_FN, DE_FN) and _built_schema_ev(ev)
         eng.discr_events = lambda ty: ty.endswith("serde_json::Value") or ty.endswith("serde_json::value::Value")
         self.paths = [p for p in eng.run(self.fn) if p.status != "infeasible"]
         self.truncated = eng.truncated
